@@ -100,3 +100,67 @@ def run_wqcases(chk, pid, runner, tier, seed, workdir, log, only_key):
     res["extra"]["failing_cases_first_pass"] = len(bad)
     res["extra"]["not_reproduced_dropped"] = dropped
     return res
+
+
+def run_wqstress(chk, pid, runner, tier, seed, workdir, log, only_key):
+    """Free-running stress (harness/cmd/wqstress, built with -race): evaluates the Go-side monitors and reports
+    race reports / panics / hangs.  No model prediction is involved (DESIGN.md 4.3)."""
+    import re, subprocess
+    name = "wqstress"
+    exe, hook_mode = chk.go_build(name, log)
+    res = {"failures": [], "hook_mode": hook_mode}
+    if exe is None:
+        res["failures"].append({"kind": "correspondence", "theorem_or_correspondence": "free-running stress",
+                                "detail": "stress harness does not build: " + log[-1][2][-1500:],
+                                "signature": "harness-build", "found_failing_input": False})
+        return res
+    out = os.path.join(workdir, "stress.json")
+    cmd = [exe, "-seed", str(seed), "-tier", tier, "-prop", runner.get("prop", pid), "-out", out]
+    try:
+        r = chk.run(cmd, cwd=workdir, timeout=runner.get("timeout", 1500))
+        rc, err = r.returncode, r.stderr
+    except subprocess.TimeoutExpired as e:
+        rc, err = -9, "watchdog: stress harness did not finish: " + str(e)
+    log.append(("wqstress", rc, err[-3000:]))
+    doc = {"runs": [], "failures": []}
+    if os.path.exists(out):
+        doc = json.load(open(out))
+    runs = doc["runs"]
+    nontrivial = [x for x in runs if x["items"] > x["cfg"]["W"] + x["cfg"]["L"] + 1]
+    res.update({"evaluations": len(runs), "distinct_nontrivial": len(nontrivial),
+                "rule": runner.get("rule", ""),
+                "histogram": {"runs": len(runs), "items": sum(x["items"] for x in runs),
+                              "runs_with_more_items_than_W+L+1": len(nontrivial),
+                              "max_running_seen": max([x["max_running"] for x in runs] or [0]),
+                              "work_errors": sum(x["errors"] for x in runs)},
+                "samples": [json.dumps(x["cfg"]) for x in runs[:3]],
+                "extra": {"stress_runs": len(runs)}})
+    # monitor failures reported by the harness itself
+    seen = set()
+    for f in doc["failures"]:
+        sig = "stress:" + f["clause"]
+        if sig in seen:
+            continue
+        seen.add(sig)
+        res["failures"].append({"kind": "monitor", "theorem_or_correspondence": "Go-side monitor of " + pid,
+                                "case": f, "signature": sig, "found_failing_input": True})
+    # data races
+    races = re.findall(r"WARNING: DATA RACE\n(.*?)\n==================", err, flags=re.S)
+    rseen = set()
+    for blk in races:
+        fns = re.findall(r"^\s+((?:github\.com/rbell/toolchest/)?workqueue\.[^\s(]+)", blk, flags=re.M)
+        fns = sorted(set(f.split("/")[-1] for f in fns))
+        sig = "race:" + ",".join(fns[:4])
+        if sig in rseen:
+            continue
+        rseen.add(sig)
+        res["failures"].append({"kind": "monitor", "theorem_or_correspondence": "race freedom (go test -race runtime)",
+                                "detail": blk[:1800], "signature": sig, "found_failing_input": True})
+    # a crash of the process (panic in the queue's goroutines), or a hang
+    if rc != 0 and not races:
+        m = re.search(r"(panic: .*|fatal error: .*)", err)
+        frames = re.findall(r"workqueue\.\(\*Queue\)\.(\w+)", err)
+        sig = "crash:%s:%s" % (m.group(1)[:80] if m else "exit %d" % rc, ",".join(sorted(set(frames))[:4]))
+        res["failures"].append({"kind": "monitor", "theorem_or_correspondence": "no crash, no hang",
+                                "detail": err[-2500:], "signature": sig, "found_failing_input": True})
+    return res
